@@ -9,9 +9,9 @@ from values import pval_j, num_j
 
 LEVEL = "proof"
 MODULE = "Phil.Props.C09"
-LEVEL_TEXT = 'Lean theorems about the converter model: fromWords (asWords v) = v for every built-in type on its domain (bool, int, str/path/key character for character via C03, strings, ints, floats under the %.10g law, choice single/multi, None, Auto), asWords refuses exactly the values that break bounds, sizes, alternatives or None rules (asWords_refuses, asWords_stray_iff), whole-tree closed forms format_closed / extract_closed / format_extract_tree on nested masters. Tied to /repo by a correspondence run of format on generated in-domain values; the oracle checks format->extract equality, the print/parse/fetch/extract leg on every case (values longer than a print line, narrow widths) and refusal of out-of-domain values, on the implementation.'
-LEVEL_NOTE = "float text is CPython's ('%.10g', eval): a law (hypothesis) in the theorems, harness-supplied renderings in the run. Known findings D15 (empty list), D16 ([None]/[Auto]), D18 ('~'), D6 reached through format. Whole-tree theorems exclude .multiple."
-TECHNIQUE = 'Lean 4 round-trip theorems per converter + whole-tree format/extract closed form + differential correspondence + round-trip oracle'
+LEVEL_TEXT = 'Lean theorems about the converter model: fromWords (asWords v) = v for every built-in type on its domain, asWords refuses exactly the values that break bounds, sizes, alternatives or None rules (asWords_refuses, asWords_stray_iff), whole-tree closed forms format_closed / extract_closed / format_extract_tree on nested masters and, with .multiple definitions and scopes, format_closed_ms / format_extract_ms / extract_scope_closed_ms (scope_extract lists, templates and placeholders followed step by step). Tied to /repo by a correspondence run of format on generated in-domain values; the oracle checks format->extract equality, the print/parse/fetch/extract leg on every case (values longer than a print line, narrow widths) and refusal of out-of-domain values, on the implementation.'
+LEVEL_NOTE = "float text is CPython's ('%.10g', eval): a law (hypothesis) in the theorems, harness-supplied renderings in the run. The print->parse->fetch->extract leg with fetch's collapse is proved on instances only. Known findings D15, D16, D18, D6 reached through format."
+TECHNIQUE = 'Lean 4 round-trip theorems per converter + whole-tree format/extract closed form (incl. .multiple) + differential correspondence + round-trip oracle'
 RULE = ("masters (all built-in types, multiples, nested scopes) x in-domain Python values per type (strings over quotes, "
         "backslashes, newlines, unicode; ints of any magnitude; floats incl. inf, tiny and huge; lists within bounds; choices; "
         "None/Auto; list values and choice alternative lists longer than one print line with bare and quoted words mixed) "
